@@ -207,6 +207,28 @@ fn main() {
             }
         }
     }
+    // kurbo Point / Vec2 forms must agree with the scalar f64 forms component-wise (and so with the model)
+    {
+        let mut comps: Vec<f64> = vec![0.0, -0.0, 0.5, -0.5, 1.5, -1.5, 2.5, -2.5, -3.5, 0.25, -0.25, 0.75, -0.75, 32767.5, -32768.5, 32767.49, -32768.51, 65535.5, 1e9, -1e9];
+        for _ in 0..200 {
+            comps.push((rng.range(-40000, 40000) as f64) + [0.0, 0.25, 0.5, 0.75][rng.below(4) as usize]);
+        }
+        for (i, &x) in comps.iter().enumerate() {
+            let y = comps[(i * 7 + 3) % comps.len()];
+            st.evaluations += 1;
+            let p: (i16, i16) = kurbo::Point::new(x, y).ot_round();
+            let (ex, ey): (i16, i16) = (x.ot_round(), y.ot_round());
+            if p != (ex, ey) {
+                st.oracle_failure(json!({"key": format!("ot_round-Point-differs-from-scalar:{:016x}:{:016x}", x.to_bits(), y.to_bits()), "x": x, "y": y, "got": [p.0, p.1], "scalar": [ex, ey]}));
+            }
+            let v: kurbo::Vec2 = kurbo::Vec2::new(x, y).ot_round();
+            let (fx, fy): (f64, f64) = (x.ot_round(), y.ot_round());
+            if v.x.to_bits() != fx.to_bits() || v.y.to_bits() != fy.to_bits() {
+                st.oracle_failure(json!({"key": format!("ot_round-Vec2-differs-from-scalar:{:016x}:{:016x}", x.to_bits(), y.to_bits()), "x": x, "y": y, "got": [v.x, v.y], "scalar": [fx, fy]}));
+            }
+        }
+        st.count("ot_round_kurbo");
+    }
     let shards = cw.finish();
     st.v.insert("shards".into(), shards.into());
     st.v.insert("model_cases".into(), cw.len().into());
